@@ -113,6 +113,20 @@ func (s *set[K, V]) getValues() []V {
 	return values
 }
 
+// compareEntityIDs is the last criterion of every sort performed on entities:
+// it makes the order total, hence independent of the map iteration order.
+func compareEntityIDs(a, b EntityID) int {
+	return strings.Compare(string(a), string(b))
+}
+
+// orCompare returns res if it is not zero, otherwise the result of the next comparison.
+func orCompare(res int, next func() int) int {
+	if res != 0 {
+		return res
+	}
+	return next()
+}
+
 func getTabString(tabs int) string {
 	tabStr := ""
 	for i := 0; i < tabs; i++ {
